@@ -9,17 +9,17 @@ CHECK = {'pkgs': ['cmd', 'cluster'],
               'configuration of an explicit product and all written files are cross-checked, including the real combine.Combine on every '
               'threshold-size subset of node directories; (b) generic JSON-tree walker over valid definition and lock files of every format '
               'version: every member/element/leaf x {changed value of the same type at 3 positions, other value, emptied, removed, array '
-              'element duplicated/swapped, version relabelled to every other version} fed to the real decode + VerifyHashes + '
+              'element duplicated/swapped, version relabelled to every other version, and for every hex/base64 byte-string leaf the four length changes drop-first-byte, drop-last-byte, prepend-zero-byte, append-zero-byte (the hashing pads some fields; fixtures carry fork versions with leading zeros (goerli) and trailing zeros (mainnet) and addresses with a zero byte at either end)} fed to the real decode + VerifyHashes + '
               'VerifySignatures path; plus consistent re-hash/re-sign by the key holders after substituting shares or the group key',
  'claim': 'quick: (a) 48 clusters = nodes 3..5 x threshold {default ceil(2n/3), n} x validators {1,2} x network {hoodi, mainnet} x deposit '
           'amounts {default, 8+24 ETH}, insecure (cheap scrypt) keystores, per-validator distinct fee-recipient/withdrawal addresses; all '
           'size-t subsets of node directories plus the full set through combine.Combine and through tbls.RecoverSecret; one --no-verify '
           'combine on a lock with exchanged group keys per cluster. (b) all 12 versions v1.0..v1.11 x {EIP-712 signed operators+creator, '
-          'create-cluster style unsigned} x {lock, definition}, 2 validators 3-of-4 on goerli, every JSON node x every alteration kind '
-          '(~14k alterations), round trips, 384 re-signed inconsistent locks. '
+          'create-cluster style unsigned} x {lock, definition}, 2 validators 3-of-4 on goerli and on mainnet, every JSON node x every alteration kind '
+          '(~40k alterations), round trips, 384 re-signed inconsistent locks. '
           'thorough: (a) 1472 clusters = nodes 3..10 x threshold {default, n, 2} x validators {1,2} x {hoodi, mainnet} x deposits {default, '
           '8+24, 31+1, 16+16} x compounding {no, yes} x split-existing-keys {no, yes}; subsets: all for n<=5, the n cyclic windows + full '
-          'set above. (b) additionally mainnet (all-zero fork version), 1 validator 2-of-3, 2 validators 4-of-4 on hoodi (~66k alterations). '
+          'set above. (b) additionally 1 validator 2-of-3, 2 validators 4-of-4 on hoodi (~66k alterations). '
           'Oracle: the statement - written artifacts verify/match/recombine; an altered file is rejected (decode, hashes or signatures) '
           'unless it decodes to identical content or the field is in the not-covered table',
  'trusted': 'the per-version table of fields a format does not hash or sign (c12bNotCovered in harness/cluster/zz_verif_c12_test.go, one entry: '
